@@ -44,12 +44,20 @@ func constSnippet(i int, pos string) []Stmt {
 		return []Stmt{Def(v("a"), B("+", N("1"), S(`"a"`)))}
 	case 13: // failure inside a function called from main, after other constants
 		return []Stmt{Def(v("f"), &FuncLit{Params: []string{"x"}, Body: []Stmt{&Return{X: B("-", S(`"a"`), I("x"))}}}), Def(v("a"), C(I(v("f")), N("97")))}
+	case 14: // byte-identical code to snippet 15 except for the variadic flag
+		return []Stmt{Def(v("f"), &FuncLit{Params: []string{"x"}, Body: []Stmt{&Return{X: I("x")}}}), Def(v("a"), C(I(v("f")), N("7")))}
+	case 15:
+		return []Stmt{Def(v("f"), &FuncLit{Params: []string{"x"}, VarArgs: true, Body: []Stmt{&Return{X: I("x")}}}), Def(v("a"), C(I(v("f")), N("7")))}
+	case 16: // constant-free helper that fails when called with a string: two copies differ only in their positions
+		return []Stmt{Def(v("f"), &FuncLit{Params: []string{"x", "y"}, Body: []Stmt{&Return{X: B("-", I("x"), I("y"))}}}), Def(v("a"), C(I(v("f")), N("9"), N("2")))}
+	case 17:
+		return []Stmt{Def(v("f"), &FuncLit{Params: []string{"x", "y"}, Body: []Stmt{&Return{X: B("-", I("x"), I("y"))}}}), Def(v("a"), C(I(v("f")), S(`"a"`), N("2")))}
 	}
 	return nil
 }
 
 // NumConstSnippets is the pool size.
-const NumConstSnippets = 14
+const NumConstSnippets = 18
 
 // ConstModules are the source modules available to the consts family.
 func ConstModules() map[string][]Stmt {
